@@ -23,9 +23,22 @@ pub unsafe fn register(regs: LanguageGlobs) -> Result<()> {
 }
 
 fn register_impl(regs: LanguageGlobs) -> Result<Vec<(SgLang, Types)>> {
-  let mut lang_globs = vec![];
-  for (lang, globs) in regs {
+  // `regs` is a hash map: merge the keys that name one language (`js`, `javascript`) and put
+  // the languages in a fixed order, so that a file that several languages claim, and the file
+  // types of a language, do not depend on the hash order of the process
+  let mut merged: Vec<(SgLang, Vec<String>)> = vec![];
+  for (lang, mut globs) in regs {
     let lang = SgLang::from_str(&lang).with_context(|| EC::UnrecognizableLanguage(lang))?;
+    if let Some((_, existing)) = merged.iter_mut().find(|(l, _)| *l == lang) {
+      existing.append(&mut globs);
+    } else {
+      merged.push((lang, globs));
+    }
+  }
+  merged.sort_by_key(|(lang, _)| lang.to_string());
+  let mut lang_globs = vec![];
+  for (lang, mut globs) in merged {
+    globs.sort();
     // Note: we have to use lang.to_string() for normalized language name
     // TODO: add test
     let lang_name = lang.to_string();
